@@ -3,5 +3,7 @@
 set -e
 cd "$(dirname "$(readlink -f "$0")")/../.."
 go build -o .work/bin/instr ./tools/instr
-.work/bin/instr -out .work/c03 -maprange encoding/mvt 2>.work/c03.instr.log || { cat .work/c03.instr.log; exit 1; }
-go build -tags verif -overlay .work/c03/overlay.json -o "$1" ./checks/c03
+W=.work/c03${VERIF_TAG:-}
+R=${VERIF_REPO:-/repo}
+.work/bin/instr -repo "$R" -out $W -maprange encoding/mvt 2>$W.instr.log || { cat $W.instr.log; exit 1; }
+go build ${VERIF_MODFLAG:-} -tags verif -overlay $W/overlay.json -o "$1" ./checks/c03
